@@ -27,6 +27,8 @@ Record dinv (d : dstate) : Prop := mk_dinv {
   (* a writer between slot commit and data write holds a slot that names its root but not (yet) its bytes *)
   d_thr : forall t r v i, alookup t (thr d) = Some (r, v, i) ->
             slot_at (md d) v i = Some (Some r) /\ content d v i <> r;
+  d_troots : forall t t' x x', alookup t (thr d) = Some x -> alookup t' (thr d) = Some x' ->
+            fst (fst x) = fst (fst x') -> t = t';
   (* the cache never holds other bytes for a sector than the ones written for it *)
   d_cache : forall r c, cget r (cache d) = Some c -> written d r -> c = r;
   (* every referenced sector is durably written *)
@@ -39,6 +41,7 @@ Proof.
   - intros r v i H; discriminate.
   - constructor.
   - intros t r v i H; discriminate.
+  - intros t t' x x' H; discriminate.
   - intros r c H; discriminate.
   - intros r H; discriminate.
 Qed.
@@ -122,12 +125,12 @@ Proof.
     destruct (w =? v)%N eqn:E; [|tauto]. apply N.eqb_eq in E; subst w.
     unfold slot_at. rewrite G. split; discriminate.
   - (* Grow *) unfold grow, stat_inc, fin, bind. repeat brk; cbn [fst]; try (apply same_slots_vols; reflexivity).
-    intros w i r. unfold slot_at; cbn.
-    destruct (N.eq_dec w v) as [->|Hne].
-    + rewrite (vget_vupd_same v _ _ v0) by (auto; reflexivity). rewrite Heqo. cbn.
-      rewrite sget_app_new. destruct (sget i (vslots v0)) as [x|]; [tauto|].
-      destruct (mem i _); split; discriminate.
-    + rewrite vget_vupd_other; [tauto|reflexivity|congruence].
+    all: intros w i r; unfold slot_at; cbn;
+      destruct (N.eq_dec w v) as [->|Hne];
+      [ rewrite (vget_vupd_same v _ _ v0) by (auto; reflexivity); rewrite Heqo; cbn;
+        rewrite sget_app_new; destruct (sget i (vslots v0)) as [x|]; [tauto|];
+        destruct (mem i _); split; discriminate
+      | rewrite vget_vupd_other; [tauto|reflexivity|congruence] ].
   - (* SetRO *) intros w i r. unfold slot_at, set_flag; cbn.
     destruct (N.eq_dec w v) as [->|Hne].
     + destruct (vget v (vols s)) as [vl|] eqn:G.
@@ -172,4 +175,652 @@ Proof.
   - unfold expire_cons. set (l' := map _ (cons s)). unfold stat_inc, fin, bind. repeat brk; exact H.
   - unfold drop_root, stat_inc, fin, bind. repeat brk; exact H.
   - unfold drop_temp, stat_inc, fin, bind. repeat brk; exact H.
+Qed.
+
+(** * Thread table *)
+Lemma alookup_in {V} t (l : list (N * V)) x : alookup t l = Some x -> In (t, x) l.
+Proof.
+  induction l as [|[k y] l IH]; cbn; [discriminate|].
+  destruct (t =? k)%N eqn:E; [apply N.eqb_eq in E; subst; intros [= ->]; now left|intros H; right; auto].
+Qed.
+
+Lemma alookup_none_notin {V} t (l : list (N * V)) : alookup t l = None -> ~ In t (map fst l).
+Proof.
+  induction l as [|[k y] l IH]; cbn; [tauto|].
+  destruct (t =? k)%N eqn:E; [discriminate|]. apply N.eqb_neq in E. intros H [H1|H1]; [congruence|now apply IH].
+Qed.
+
+Lemma alookup_aremove {V} t t' (l : list (N * V)) x :
+  NoDup (map fst l) -> alookup t' (aremove t l) = Some x -> t' <> t /\ alookup t' l = Some x.
+Proof.
+  induction l as [|[k y] l IH]; cbn; [discriminate|]. intros Hnd; inversion Hnd as [|? ? Hni Hnd']; subst.
+  destruct (t =? k)%N eqn:E.
+  - apply N.eqb_eq in E; subst k. intros H. split.
+    + intros ->. apply alookup_in in H. apply Hni. change t with (fst (t, x)). now apply in_map.
+    + destruct (t' =? t)%N eqn:E2; [|exact H].
+      apply N.eqb_eq in E2; subst. apply alookup_in in H. exfalso; apply Hni.
+      change t with (fst (t, x)). now apply in_map.
+  - cbn. destruct (t' =? k)%N eqn:E2.
+    + intros [= ->]. split; [|reflexivity]. apply N.eqb_eq in E2; subst. apply N.eqb_neq in E. congruence.
+    + intros H. now apply IH.
+Qed.
+
+Lemma aremove_nodup {V} t (l : list (N * V)) : NoDup (map fst l) -> NoDup (map fst (aremove t l)).
+Proof.
+  induction l as [|[k y] l IH]; cbn; [auto|]. intros Hnd; inversion Hnd as [|? ? Hni Hnd']; subst.
+  destruct (t =? k)%N; cbn; [auto|]. constructor; [|auto].
+  intros Hin. apply Hni. clear - Hin. induction l as [|[k' y'] l IH]; cbn in *; [tauto|].
+  destruct (t =? k')%N; cbn in *; [now right|]. destruct Hin; [now left|right; auto].
+Qed.
+
+(** * Transfer of written / durable between states *)
+Lemma written_transfer d d' r :
+  (forall v i, slot_at (md d) v i = Some (Some r) -> slot_at (md d') v i = Some (Some r) /\ content d' v i = content d v i) ->
+  written d r -> written d' r.
+Proof. intros H [v [i [S C]]]. destruct (H v i S) as [S' C']. exists v, i; split; auto; congruence. Qed.
+
+Lemma durable_transfer d d' r :
+  (forall v i, slot_at (md d) v i = Some (Some r) ->
+     slot_at (md d') v i = Some (Some r) /\ content d' v i = content d v i /\
+     (dcontent d' v i = dcontent d v i \/ dcontent d' v i = content d v i)) ->
+  durable d r -> durable d' r.
+Proof.
+  intros H [v [i [S [C D]]]]. destruct (H v i S) as [S' [C' D']].
+  exists v, i; repeat split; auto; [congruence|]. destruct D'; congruence.
+Qed.
+
+(** * DMeta *)
+Lemma dinv_meta d o : dinv d -> step_ok d (DMeta o) -> dinv (fst (dstep d (DMeta o))).
+Proof.
+  intros I OK. cbn [step_ok dstep] in *. destruct (meta_op o) eqn:M; [|exact I].
+  destruct (step (md d) o) as [m b] eqn:St. cbn [fst md with_md] in *.
+  assert (Em : m = fst (step (md d) o)) by now rewrite St.
+  pose proof (meta_same_slots o (md d) M) as SS. rewrite <- Em in SS.
+  destruct I as [I1 I2 I3 I4 I4' I5 I6].
+  constructor; cbn.
+  - rewrite Em. now apply inv_step.
+  - intros r v i H. apply SS in H. rewrite Em. apply meta_known; eauto.
+  - exact I3.
+  - intros t r v i H. destruct (I4 t r v i H) as [S C]. split; [now apply SS|exact C].
+  - exact I4'.
+  - intros r c H W. apply (I5 r c H). destruct W as [v [i [S C]]]. exists v, i. split; [now apply SS|exact C].
+  - intros r H. destruct (OK r H) as [H'|H'].
+    + eapply durable_transfer; [|apply (I6 r H')]. intros v i S. split; [now apply SS|auto].
+    + eapply durable_transfer; [|exact H']. intros v i S. split; [now apply SS|auto].
+Qed.
+
+(** * DReserve *)
+Lemma reserve_facts r loc s s1 v i :
+  inv s -> reserve r loc s = RPlaced s1 v i ->
+  same_refs s s1 /\ mem r (known s1) = true /\ (forall q, mem q (known s) = true -> mem q (known s1) = true).
+Proof.
+  intros I. unfold reserve.
+  destruct (vfind r (vols s)) as [[v0 j0]|] eqn:F; [destruct loc; discriminate|].
+  destruct (has_free s); cbn [negb]; [|destruct loc; discriminate].
+  destruct loc as [[v' i']|]; [|discriminate].
+  destruct (valid_free s v' i') eqn:V; cbn [negb]; [|discriminate].
+  destruct (vol_usage v' 1 (set_slot v' i' (Some r) (add_known r s))) as [s1'| |] eqn:U; try discriminate.
+  intros [= <- <- <-].
+  apply usage_set_slot in U as [vl' [G' [_ [Hv [Hm [Hk [Ht Hc]]]]]]].
+  rewrite add_known_temps in Ht. rewrite add_known_cons in Hc.
+  split; [split; assumption|]. rewrite Hk. unfold add_known.
+  destruct (mem r (known s)) eqn:K; cbn; [auto|].
+  split; [now rewrite N.eqb_refl|]. intros q Hq. rewrite Hq. now rewrite Bool.orb_true_r.
+Qed.
+
+Lemma add_known_mem r s q : mem q (known s) = true -> mem q (known (add_known r s)) = true.
+Proof.
+  unfold add_known. destruct (mem r (known s)); cbn; [auto|]. intros ->. now rewrite Bool.orb_true_r.
+Qed.
+
+Lemma dinv_reserve d t r loc : dinv d -> step_ok d (DReserve t r loc) -> dinv (fst (dstep d (DReserve t r loc))).
+Proof.
+  intros I OK. cbn [dstep]. unfold dreserve.
+  destruct (alookup t (thr d)) eqn:T; [exact I|].
+  destruct (reserve r loc (md d)) as [| |s1 v i|o|] eqn:R; cbn [fst]; try exact I.
+  - (* exists *) destruct I as [I1 I2 I3 I4 I4' I5 I6]. constructor; cbn.
+    + now apply inv_add_known.
+    + intros q v i H. unfold slot_at in H. rewrite add_known_vols in H. apply add_known_mem. eapply I2; eauto.
+    + exact I3.
+    + intros t' q v i H. destruct (I4 t' q v i H) as [S C]. split; auto. unfold slot_at. now rewrite add_known_vols.
+    + exact I4'.
+    + intros q c H [v [i [S C]]]. apply (I5 q c H). exists v, i; split; auto.
+      cbn [md with_md] in S. unfold slot_at in *. now rewrite add_known_vols in S.
+    + intros q H. unfold refd in H. rewrite add_known_cons, add_known_temps in H.
+      eapply durable_transfer; [|apply (I6 q H)]. intros v i S. split; auto.
+      cbn [md with_md]. unfold slot_at. now rewrite add_known_vols.
+  - (* placed *)
+    destruct I as [I1 I2 I3 I4 I4' I5 I6].
+    destruct (reserve_placed r loc (md d) s1 v i I1 R) as [J1 [F [-> [V [vl [G [S Hv]]]]]]].
+    destruct (reserve_facts r (Some (v, i)) (md d) s1 v i I1 R) as [SR [K1 K2]].
+    cbn in OK.
+    pose proof (slot_at_wr (md d) s1 v i (Some r) 1 vl G Hv) as SA. rewrite S in SA.
+    assert (Hold : forall w j q, slot_at (md d) w j = Some (Some q) -> slot_at s1 w j = Some (Some q)).
+    { intros w j q H. rewrite SA. destruct ((w =? v)%N && (j =? i)%N) eqn:E; [|exact H].
+      apply Bool.andb_true_iff in E as [E1 E2]. apply N.eqb_eq in E1, E2; subst.
+      unfold slot_at in H. rewrite G, S in H. discriminate. }
+    assert (Hnew : forall w j q, slot_at s1 w j = Some (Some q) ->
+                     (w = v /\ j = i /\ q = r) \/ slot_at (md d) w j = Some (Some q)).
+    { intros w j q H. rewrite SA in H. destruct ((w =? v)%N && (j =? i)%N) eqn:E; [|now right].
+      apply Bool.andb_true_iff in E as [E1 E2]. apply N.eqb_eq in E1, E2; subst. injection H as <-. now left. }
+    constructor; cbn.
+    + exact J1.
+    + intros q w j H. apply Hnew in H as [[-> [-> ->]]|H]; [exact K1|]. apply K2. eapply I2; eauto.
+    + constructor; [now apply alookup_none_notin|exact I3].
+    + intros t' q w j H. destruct (t' =? t)%N eqn:E.
+      * injection H as <- <- <-. split; [|exact OK]. rewrite SA, !N.eqb_refl. reflexivity.
+      * destruct (I4 t' q w j H) as [S' C]. split; [now apply Hold|exact C].
+    + intros t1 t2 x1 x2 H1 H2 E.
+      assert (Hnot : forall t' x', alookup t' (thr d) = Some x' -> fst (fst x') <> r).
+      { intros t' [[q w] j] H' Heq. cbn in Heq; subst q. destruct (I4 t' r w j H') as [S' _].
+        exact (slot_at_none_vfind (md d) r I1 F w j S'). }
+      destruct (t1 =? t)%N eqn:E1; destruct (t2 =? t)%N eqn:E2.
+      * apply N.eqb_eq in E1, E2; congruence.
+      * injection H1 as <-. cbn in E. exfalso. eapply Hnot; eauto.
+      * injection H2 as <-. cbn in E. exfalso. eapply Hnot; eauto.
+      * eapply I4'; eauto.
+    + intros q c H [w [j [S' C]]]. apply (I5 q c H).
+      apply Hnew in S' as [[-> [-> ->]]|S']; [contradiction|]. exists w, j; auto.
+    + intros q H. rewrite (refd_same _ _ q SR) in H.
+      eapply durable_transfer; [|apply (I6 q H)]. intros w j S'. split; [now apply Hold|auto].
+Qed.
+
+(** * DWrite *)
+Lemma rollback_facts r v i s s' o :
+  inv s -> slot_at s v i = Some (Some r) -> rollback r v i s = (s', o) ->
+  inv s' /\ same_refs s s' /\ known s' = known s /\
+  (forall w j q, slot_at s' w j = Some (Some q) -> slot_at s w j = Some (Some q)) /\
+  (forall w j q, slot_at s w j = Some (Some q) -> q <> r -> slot_at s' w j = Some (Some q)).
+Proof.
+  intros I S R. pose proof (inv_rollback r v i s I) as I'. rewrite R in I'. cbn in I'.
+  unfold rollback in R.
+  assert (Hsame : s' = s -> inv s' /\ same_refs s s' /\ known s' = known s /\
+     (forall w j q, slot_at s' w j = Some (Some q) -> slot_at s w j = Some (Some q)) /\
+     (forall w j q, slot_at s w j = Some (Some q) -> q <> r -> slot_at s' w j = Some (Some q))).
+  { intros ->. split; [exact I|]. split; [split; reflexivity|]. split; [reflexivity|]. split; auto. }
+  unfold slot_at in S. unfold slots_of in R.
+  destruct (vget v (vols s)) as [vl|] eqn:G; [|discriminate]. rewrite S in R.
+  rewrite N.eqb_refl in R.
+  destruct (vol_usage v (-1) (set_slot v i None s)) as [s2| |] eqn:U; injection R as <- _; auto.
+  apply usage_set_slot in U as [vl' [G' [_ [Hv [Hm [Hk [Ht Hc]]]]]]].
+  rewrite G in G'; injection G' as <-.
+  pose proof (slot_at_wr s s2 v i None (-1) vl G Hv) as SA. rewrite S in SA.
+  split; [exact I'|]. split; [split; assumption|]. split; [exact Hk|]. split.
+  - intros w j q H. rewrite SA in H. destruct ((w =? v)%N && (j =? i)%N); [discriminate|exact H].
+  - intros w j q H Hq. rewrite SA. destruct ((w =? v)%N && (j =? i)%N) eqn:E; [|exact H].
+    apply Bool.andb_true_iff in E as [E1 E2]. apply N.eqb_eq in E1, E2; subst.
+    unfold slot_at in H. rewrite G, S in H. congruence.
+Qed.
+
+Lemma content_kset d v i c dk w j :
+  content (with_files d dk (kset v i c (pend d))) w j =
+  if (w =? v)%N && (j =? i)%N then c
+  else match kget w j (pend d) with Some x => x | None => match kget w j dk with Some x => x | None => 0%N end end.
+Proof. unfold content; cbn. destruct ((w =? v)%N && (j =? i)%N); reflexivity. Qed.
+
+Lemma dinv_write d t ok : dinv d -> dinv (fst (dstep d (DWrite t ok))).
+Proof.
+  intros I. cbn [dstep]. unfold dwrite.
+  destruct (alookup t (thr d)) as [[[r v] i]|] eqn:T; [|exact I].
+  destruct I as [I1 I2 I3 I4 I4' I5 I6].
+  destruct (I4 t r v i T) as [St Ct].
+  assert (Hothers : forall t' q w j, alookup t' (aremove t (thr d)) = Some (q, w, j) ->
+            alookup t' (thr d) = Some (q, w, j) /\ q <> r /\ ~ (w = v /\ j = i)).
+  { intros t' q w j H. apply alookup_aremove in H as [Hne H]; [|exact I3]. split; [exact H|].
+    assert (Hq : q <> r).
+    { intros ->. apply Hne. eapply (I4' t' t); eauto. }
+    split; [exact Hq|]. intros [-> ->]. destruct (I4 t' q v i H) as [S' _]. congruence. }
+  destruct (ok && is_some (vget v (vols (md d)))) eqn:OK; cbn [fst].
+  - (* data written *)
+    assert (Hc : forall w j, ~ (w = v /\ j = i) ->
+              content (with_files (with_thr d (aremove t (thr d))) (disk d) (kset v i r (pend d))) w j = content d w j).
+    { intros w j H. unfold content; cbn. destruct ((w =? v)%N && (j =? i)%N) eqn:E; [|reflexivity].
+      apply Bool.andb_true_iff in E as [E1 E2]. apply N.eqb_eq in E1, E2. tauto. }
+    constructor; cbn.
+    + exact I1.
+    + exact I2.
+    + now apply aremove_nodup.
+    + intros t' q w j H. destruct (Hothers t' q w j H) as [H' [Hq Hs]]. destruct (I4 t' q w j H') as [S' C'].
+      split; [exact S'|]. unfold content in *; cbn.
+      destruct ((w =? v)%N && (j =? i)%N) eqn:E; [|exact C'].
+      apply Bool.andb_true_iff in E as [E1 E2]. apply N.eqb_eq in E1, E2. tauto.
+    + intros t1 t2 x1 x2 H1 H2 E. apply alookup_aremove in H1 as [_ H1]; [|exact I3].
+      apply alookup_aremove in H2 as [_ H2]; [|exact I3]. eapply I4'; eauto.
+    + intros q c H [w [j [S' C']]]. apply cget_cadd in H as [[-> ->]|[Hq H]]; [reflexivity|].
+      apply (I5 q c H). exists w, j. split; [exact S'|].
+      cbn in S'. unfold content in *; cbn in C'.
+      destruct ((w =? v)%N && (j =? i)%N) eqn:E; [|exact C'].
+      apply Bool.andb_true_iff in E as [E1 E2]. apply N.eqb_eq in E1, E2; subst. congruence.
+    + intros q H. destruct (I6 q H) as [w [j [S' [C' D']]]]. exists w, j. cbn.
+      assert (Hne : ~ (w = v /\ j = i)). { intros [-> ->]. congruence. }
+      split; [exact S'|]. split; [|exact D'].
+      unfold content in *; cbn. destruct ((w =? v)%N && (j =? i)%N) eqn:E; [|exact C'].
+      apply Bool.andb_true_iff in E as [E1 E2]. apply N.eqb_eq in E1, E2. tauto.
+  - (* failure: rollback *)
+    destruct (rollback r v i (md d)) as [m o] eqn:R. cbn [fst].
+    destruct (rollback_facts r v i (md d) m o I1 St R) as [J1 [SR [K [Hsub Hkeep]]]].
+    constructor; cbn.
+    + exact J1.
+    + intros q w j H. rewrite K. eapply I2. eapply Hsub; eauto.
+    + now apply aremove_nodup.
+    + intros t' q w j H. destruct (Hothers t' q w j H) as [H' [Hq Hs]]. destruct (I4 t' q w j H') as [S' C'].
+      split; [now apply Hkeep|exact C'].
+    + intros t1 t2 x1 x2 H1 H2 E. apply alookup_aremove in H1 as [_ H1]; [|exact I3].
+      apply alookup_aremove in H2 as [_ H2]; [|exact I3]. eapply I4'; eauto.
+    + intros q c H [w [j [S' C']]]. apply (I5 q c H). exists w, j. split; [eapply Hsub; eauto|exact C'].
+    + intros q H. rewrite (refd_same _ _ q SR) in H. destruct (I6 q H) as [w [j [S' [C' D']]]].
+      exists w, j. cbn. split; [|auto]. apply Hkeep; [exact S'|].
+      intros ->. destruct (slot_injective (md d) w j v i r I1 S' St) as [-> ->]. congruence.
+Qed.
+
+(** * DSync, DRead, DResizeCache, DCrash, DRestart *)
+Lemma fold_sync_dcontent l d v i :
+  dcontent (fold_left (fun a w => sync_vol w a) l d) v i = dcontent d v i \/
+  dcontent (fold_left (fun a w => sync_vol w a) l d) v i = content d v i.
+Proof.
+  revert d; induction l as [|w t IH]; intros d; cbn; [now left|].
+  destruct (IH (sync_vol w d)) as [H|H]; rewrite H.
+  - rewrite dcontent_sync_vol. destruct (v =? w)%N; auto.
+  - right. apply content_sync_vol.
+Qed.
+
+Lemma dinv_sync d : dinv d -> dinv (dsync d).
+Proof.
+  intros [I1 I2 I3 I4 I4' I5 I6]. unfold dsync.
+  constructor; cbn; rewrite ?fold_sync_md, ?fold_sync_thr, ?fold_sync_cache; auto.
+  - intros t r v i H. destruct (I4 t r v i H) as [S C]. split; [exact S|].
+    unfold content in *; cbn. fold (content (fold_left (fun a w => sync_vol w a) (changed d) d) v i).
+    now rewrite fold_sync_content.
+  - intros r c H [v [i [S C]]]. apply (I5 r c H). exists v, i. cbn in S. rewrite fold_sync_md in S.
+    split; [exact S|]. unfold content in C; cbn in C.
+    fold (content (fold_left (fun a w => sync_vol w a) (changed d) d) v i) in C.
+    now rewrite fold_sync_content in C.
+  - intros r H. destruct (I6 r H) as [v [i [S [C D]]]]. exists v, i. cbn. rewrite fold_sync_md.
+    split; [exact S|]. split.
+    + unfold content; cbn. fold (content (fold_left (fun a w => sync_vol w a) (changed d) d) v i).
+      now rewrite fold_sync_content.
+    + unfold dcontent; cbn. fold (dcontent (fold_left (fun a w => sync_vol w a) (changed d) d) v i).
+      destruct (fold_sync_dcontent (changed d) d v i) as [E|E]; rewrite E; auto.
+Qed.
+
+Lemma locate_slot s r v i : inv s -> locate r s = Some (v, i) -> slot_at s v i = Some (Some r).
+Proof.
+  intros I. unfold locate. destruct (mem r (known s)); [|discriminate]. intros H. now apply vfind_iff.
+Qed.
+
+Lemma dinv_cache d c' :
+  dinv d -> (forall r c, cget r c' = Some c -> written d r -> c = r) -> dinv (with_cache d c').
+Proof.
+  intros [I1 I2 I3 I4 I4' I5 I6] H. constructor; cbn; auto.
+Qed.
+
+Lemma dinv_read d r fail : dinv d -> dinv (fst (dstep d (DRead r fail))).
+Proof.
+  intros I. cbn [dstep]. unfold dread.
+  destruct (cget r (cache d)) as [c|] eqn:Hc; cbn [fst].
+  - apply dinv_cache; [exact I|]. intros q x H W. apply (d_cache d I q x); [|exact W].
+    cbn in H. destruct (q =? r)%N eqn:E.
+    + apply N.eqb_eq in E; subst. injection H as <-. exact Hc.
+    + apply N.eqb_neq in E. now rewrite cget_cdel_other in H.
+  - destruct (locate r (md d)) as [[v i]|] eqn:L; [|exact I].
+    destruct fail; [exact I|]. cbn [fst].
+    apply dinv_cache; [exact I|]. intros q x H W.
+    apply cget_cadd in H as [[-> ->]|[Hq H]]; [|apply (d_cache d I q x H W)].
+    destruct W as [w [j [S C]]]. apply locate_slot in L; [|apply (d_inv d I)].
+    destruct (slot_injective (md d) w j v i r (d_inv d I) S L) as [-> ->]. exact C.
+Qed.
+
+Lemma dinv_resize_cache d n : dinv d -> dinv (fst (dstep d (DResizeCache n))).
+Proof.
+  intros [I1 I2 I3 I4 I4' I5 I6]. cbn. constructor; cbn; auto.
+  intros r c H W. apply cget_firstn in H. apply (I5 r c H). exact W.
+Qed.
+
+Lemma dinv_crash d : dinv d -> dinv (dcrash d).
+Proof.
+  intros [I1 I2 I3 I4 I4' I5 I6]. constructor; cbn; auto; try discriminate.
+  - constructor.
+  - intros r H. destruct (I6 r H) as [v [i [S [C D]]]]. exists v, i. cbn.
+    split; [exact S|]. unfold content, dcontent in *; cbn. auto.
+Qed.
+
+Lemma dinv_restart d : dinv d -> dinv (fst (dstep d DRestart)).
+Proof.
+  intros I. cbn [dstep]. destruct (thr d) eqn:T; [|exact I]. cbn [fst].
+  destruct I as [I1 I2 I3 I4 I4' I5 I6]. constructor; cbn; auto; try discriminate.
+  - constructor.
+  - intros r H. destruct (I6 r H) as [v [i [S [C D]]]]. exists v, i. cbn.
+    split; [exact S|]. unfold content, dcontent in *; cbn. rewrite kget_app.
+    destruct (kget v i (pend d)); auto.
+Qed.
+
+(** * DPrune *)
+Lemma slot_at_pruned f s m w j :
+  slot_at (with_mets (with_vols s (map (pvol f) (vols s))) m) w j =
+  match slot_at s w j with
+  | Some (Some q) => if f q then Some (Some q) else Some None
+  | o => o
+  end.
+Proof.
+  unfold slot_at; cbn. rewrite vget_map_pvol. destruct (vget w (vols s)) as [vl|]; cbn; [|reflexivity].
+  apply sget_pslots.
+Qed.
+
+Lemma in_flight_spec r (l : list (N * (N * N * N))) t v i : alookup t l = Some (r, v, i) -> in_flight r l = true.
+Proof.
+  intros H. apply alookup_in in H. unfold in_flight. apply existsb_exists.
+  exists (t, (r, v, i)); split; [exact H|cbn; apply N.eqb_refl].
+Qed.
+
+Lemma dinv_prune d : dinv d -> dinv (fst (dstep d DPrune)).
+Proof.
+  intros I. cbn [dstep]. unfold dprune.
+  set (f := fun r => refd (md d) r || in_flight r (thr d)).
+  destruct (prune_with_ok f (md d) (d_inv d I)) as [m P]. rewrite P. cbn [dres fst].
+  pose proof (inv_prune_with f (md d) _ (d_inv d I) P) as J1.
+  destruct I as [I1 I2 I3 I4 I4' I5 I6].
+  constructor; cbn [md with_md thr cache].
+  - exact J1.
+  - intros q w j H. rewrite slot_at_pruned in H. cbn.
+    destruct (slot_at (md d) w j) as [[q'|]|] eqn:S; try discriminate.
+    destruct (f q'); [|discriminate]. injection H as <-. eapply I2; eauto.
+  - exact I3.
+  - intros t q w j H. destruct (I4 t q w j H) as [S C]. split; [|exact C].
+    rewrite slot_at_pruned, S. unfold f. rewrite (in_flight_spec q _ t w j H), Bool.orb_true_r. reflexivity.
+  - exact I4'.
+  - intros q c H [w [j [S C]]]. apply (I5 q c H). exists w, j. split; [|exact C].
+    cbn [md with_md] in S. rewrite slot_at_pruned in S. destruct (slot_at (md d) w j) as [[q'|]|]; try discriminate.
+    destruct (f q'); [exact S|discriminate].
+  - intros q H. assert (H' : refd (md d) q = true) by exact H.
+    destruct (I6 q H') as [w [j [S [C D]]]]. exists w, j. split; [|auto].
+    cbn [md with_md]. rewrite slot_at_pruned, S. unfold f. rewrite H'. reflexivity.
+Qed.
+
+(** * DShrinkT, DRemoveT *)
+Lemma sget_filter_lt n j (l : slots) :
+  sget j (filter (fun y => (fst y <? n)%N) l) = if (j <? n)%N then sget j l else None.
+Proof.
+  induction l as [|[k y] t IH]; cbn; [destruct (j <? n)%N; reflexivity|].
+  destruct (k <? n)%N eqn:E; cbn.
+  - destruct (j =? k)%N eqn:Ej; [|exact IH]. apply N.eqb_eq in Ej; subst. now rewrite E.
+  - destruct (j =? k)%N eqn:Ej; [|exact IH]. apply N.eqb_eq in Ej; subst. rewrite E.
+    rewrite IH, E. reflexivity.
+Qed.
+
+Lemma shrink_facts v n s m :
+  shrink v n s = Ok m ->
+  same_refs s m /\ known m = known s /\
+  (forall w j q, slot_at s w j = Some (Some q) -> slot_at m w j = Some (Some q) /\ (w <> v \/ (j < n)%N)) /\
+  (forall w j q, slot_at m w j = Some (Some q) -> slot_at s w j = Some (Some q)).
+Proof.
+  unfold shrink. destruct (n =? 0)%N; [discriminate|].
+  destruct (vget v (vols s)) as [vl|] eqn:G.
+  2:{ destruct (existsb _ []); discriminate. }
+  destruct (existsb (fun x => (n <=? fst x)%N && is_some (snd x)) (vslots vl)) eqn:E0; [discriminate|].
+  destruct (vtotal vl <? Z.of_N n)%Z; [discriminate|].
+  destruct (stat_inc _ _) as [t| |]; cbn [bind]; try discriminate. intros [= <-].
+  split; [split; reflexivity|]. split; [reflexivity|].
+  assert (SA : forall w j, slot_at (with_mets (with_vols s (vupd v (fun x => set_total (set_slots x (filter (fun y => (fst y <? n)%N) (vslots x))) (Z.of_N n)) (vols s))) (set_mTotal (mets s) t)) w j =
+                 if (w =? v)%N then (if (j <? n)%N then sget j (vslots vl) else None) else slot_at s w j).
+  { intros w j. unfold slot_at; cbn. destruct (w =? v)%N eqn:E.
+    - apply N.eqb_eq in E; subst. rewrite (vget_vupd_same v _ _ vl) by (auto; reflexivity). cbn. apply sget_filter_lt.
+    - apply N.eqb_neq in E. rewrite vget_vupd_other; [reflexivity|reflexivity|congruence]. }
+  split.
+  - intros w j q H. rewrite SA. destruct (w =? v)%N eqn:E.
+    + apply N.eqb_eq in E; subst. unfold slot_at in H. rewrite G in H.
+      pose proof (existsb_false _ _ E0 (j, Some q) (sget_in _ _ _ H)) as Hx. cbn in Hx.
+      rewrite Bool.andb_true_r in Hx. replace (j <? n)%N with true by lia. split; [exact H|right; lia].
+    + apply N.eqb_neq in E. split; [exact H|now left].
+  - intros w j q H. rewrite SA in H. destruct (w =? v)%N eqn:E; [|exact H].
+    apply N.eqb_eq in E; subst. unfold slot_at. rewrite G. destruct (j <? n)%N; [exact H|discriminate].
+Qed.
+
+Lemma content_ktrunc d v n m w j : (w <> v \/ (j < n)%N) ->
+  content (with_files (with_md d m) (ktrunc v n (disk d)) (ktrunc v n (pend d))) w j = content d w j /\
+  dcontent (with_files (with_md d m) (ktrunc v n (disk d)) (ktrunc v n (pend d))) w j = dcontent d w j.
+Proof.
+  intros H. unfold content, dcontent; cbn. now rewrite !kget_ktrunc_keep by exact H.
+Qed.
+
+Lemma dinv_shrink d v n : dinv d -> dinv (fst (dstep d (DShrinkT v n))).
+Proof.
+  intros I. cbn [dstep]. unfold dshrink. destruct (shrink v n (md d)) as [m| |] eqn:Sh; cbn [fst]; try exact I.
+  pose proof (inv_shrink v n (md d) m (d_inv d I) Sh) as J1.
+  destruct (shrink_facts v n (md d) m Sh) as [SR [K [Hkeep Hsub]]].
+  destruct I as [I1 I2 I3 I4 I4' I5 I6].
+  constructor; cbn [md with_md with_files thr cache].
+  - exact J1.
+  - intros q w j H. rewrite K. eapply I2. eapply Hsub; eauto.
+  - exact I3.
+  - intros t q w j H. destruct (I4 t q w j H) as [S C]. destruct (Hkeep w j q S) as [S' Hw].
+    split; [exact S'|]. now rewrite (proj1 (content_ktrunc d v n m w j Hw)).
+  - exact I4'.
+  - intros q c H [w [j [S C]]]. apply (I5 q c H). exists w, j.
+    pose proof (Hsub w j q S) as S0. destruct (Hkeep w j q S0) as [_ Hw].
+    split; [exact S0|]. now rewrite (proj1 (content_ktrunc d v n m w j Hw)) in C.
+  - intros q H. rewrite (refd_same _ _ q SR) in H. destruct (I6 q H) as [w [j [S [C D]]]].
+    destruct (Hkeep w j q S) as [S' Hw]. exists w, j. split; [exact S'|].
+    destruct (content_ktrunc d v n m w j Hw) as [E1 E2]. rewrite E1, E2. auto.
+Qed.
+
+Lemma wsum_occ_zero (l : slots) j q : wsum occ1 l = 0%Z -> sget j l <> Some (Some q).
+Proof.
+  induction l as [|[k y] t IH]; cbn [wsum sget]; [discriminate|].
+  pose proof (wsum_nonneg occ1 t occ1_nonneg) as H1. pose proof (occ1_nonneg y) as H2.
+  intros Hz. destruct (j =? k)%N.
+  - intros E. injection E as E. subst y. cbn [occ1] in *. lia.
+  - apply IH. lia.
+Qed.
+
+Lemma vget_vdel_other v w l : v <> w -> vget w (vdel v l) = vget w l.
+Proof.
+  intros Hne. induction l as [|x t IH]; cbn; [reflexivity|].
+  destruct (v =? vid x)%N eqn:E; cbn.
+  - apply N.eqb_eq in E. destruct (w =? vid x)%N eqn:E2; [apply N.eqb_eq in E2; congruence|reflexivity].
+  - destruct (w =? vid x)%N; [reflexivity|exact IH].
+Qed.
+
+Lemma remove_facts v s m :
+  inv s -> remove_vol v false s = Ok m ->
+  same_refs s m /\ known m = known s /\
+  (forall w j q, slot_at s w j = Some (Some q) -> slot_at m w j = Some (Some q) /\ w <> v) /\
+  (forall w j q, slot_at m w j = Some (Some q) -> slot_at s w j = Some (Some q)).
+Proof.
+  intros I. unfold remove_vol. destruct (vget v (vols s)) as [vl|] eqn:G; [|discriminate].
+  cbn [negb andb]. destruct (wsum occ1 (vslots vl) =? 0)%Z eqn:Z0; cbn [negb]; [|discriminate].
+  destruct (stat_inc _ _) as [p| |]; cbn [bind]; try discriminate.
+  destruct (stat_inc _ _) as [lo| |]; cbn [bind]; try discriminate.
+  destruct (stat_inc _ _) as [t| |]; cbn [bind]; try discriminate. intros [= <-].
+  split; [split; reflexivity|]. split; [reflexivity|].
+  assert (Hempty : forall j q, slot_at s v j <> Some (Some q)).
+  { intros j q. unfold slot_at. rewrite G. apply wsum_occ_zero. lia. }
+  split.
+  - intros w j q H. assert (Hw : w <> v) by (intros ->; eapply Hempty; eauto). split; [|exact Hw].
+    unfold slot_at in *; cbn. rewrite vget_vdel_other; auto.
+  - intros w j q H. unfold slot_at in *; cbn in H. destruct (N.eq_dec w v) as [->|Hw].
+    + exfalso. destruct (vget v (vdel v (vols s))) as [x|] eqn:Gx; [|discriminate].
+      apply vget_in in Gx as [Gin Gv]. pose proof (inv_vids s I) as Hnd.
+      clear - Gin Gv Hnd G. induction (vols s) as [|y t IH]; cbn in *; [tauto|].
+      inversion Hnd as [|? ? Hni Hnd']; subst. destruct (vid x =? vid y)%N eqn:E.
+      * apply N.eqb_eq in E. apply Hni. rewrite <- E. now apply in_map.
+      * cbn in Gin. destruct Gin as [->|Gin]; [now rewrite N.eqb_refl in E|]. apply IH; auto.
+    + rewrite vget_vdel_other in H; auto.
+Qed.
+
+Lemma dinv_remove d v force : dinv d -> step_ok d (DRemoveT v force) -> dinv (fst (dstep d (DRemoveT v force))).
+Proof.
+  intros I OK. cbn in OK. subst force. cbn [dstep]. unfold dremove.
+  destruct (remove_vol v false (md d)) as [m| |] eqn:R; cbn [fst]; try exact I.
+  pose proof (inv_remove_vol v false (md d) m (d_inv d I) R) as J1.
+  destruct (remove_facts v (md d) m (d_inv d I) R) as [SR [K [Hkeep Hsub]]].
+  assert (Hc : forall w j, w <> v ->
+     content (with_files (with_md d m) (knot v (disk d)) (knot v (pend d))) w j = content d w j /\
+     dcontent (with_files (with_md d m) (knot v (disk d)) (knot v (pend d))) w j = dcontent d w j).
+  { intros w j Hw. unfold content, dcontent; cbn. now rewrite !kget_knot_other by exact Hw. }
+  destruct I as [I1 I2 I3 I4 I4' I5 I6].
+  constructor; cbn [md with_md with_files thr cache].
+  - exact J1.
+  - intros q w j H. rewrite K. eapply I2. eapply Hsub; eauto.
+  - exact I3.
+  - intros t q w j H. destruct (I4 t q w j H) as [S C]. destruct (Hkeep w j q S) as [S' Hw].
+    split; [exact S'|]. now rewrite (proj1 (Hc w j Hw)).
+  - exact I4'.
+  - intros q c H [w [j [S C]]]. apply (I5 q c H). exists w, j.
+    pose proof (Hsub w j q S) as S0. destruct (Hkeep w j q S0) as [_ Hw].
+    split; [exact S0|]. now rewrite (proj1 (Hc w j Hw)) in C.
+  - intros q H. rewrite (refd_same _ _ q SR) in H. destruct (I6 q H) as [w [j [S [C D]]]].
+    destruct (Hkeep w j q S) as [S' Hw]. exists w, j. split; [exact S'|].
+    destruct (Hc w j Hw) as [E1 E2]. rewrite E1, E2. auto.
+Qed.
+
+(** * DMigrate *)
+Lemma mig_move_slots v idx r to s s' vl tl :
+  vget v (vols s) = Some vl -> sget idx (vslots vl) = Some (Some r) ->
+  vget (fst to) (vols s) = Some tl -> sget (snd to) (vslots tl) = Some None ->
+  mig_move v idx r to s = Ok s' ->
+  forall w j, slot_at s' w j =
+    if (w =? fst to)%N && (j =? snd to)%N then Some (Some r)
+    else if (w =? v)%N && (j =? idx)%N then Some None
+    else slot_at s w j.
+Proof.
+  intros G S Gt St M. destruct (mig_move_vols v idx r to s s' M) as [Hv _].
+  set (sa := with_vols s (vupd v (wr idx None (-1)) (vols s))).
+  pose proof (slot_at_wr s sa v idx None (-1) vl G eq_refl) as SA. rewrite S in SA.
+  assert (Gta : exists tl', vget (fst to) (vols sa) = Some tl' /\ sget (snd to) (vslots tl') = Some None).
+  { cbn. destruct (N.eq_dec v (fst to)) as [E|Hne].
+    - rewrite <- E in *. rewrite G in Gt; injection Gt as <-.
+      rewrite (vget_vupd_same v _ (vols s) vl); [|reflexivity|exact G].
+      eexists; split; [reflexivity|]. cbn [vslots wr set_used set_slots]. rewrite sget_sset_other; [exact St|].
+      intros Heq. rewrite Heq in S. congruence.
+    - rewrite vget_vupd_other; [|reflexivity|exact Hne]. eauto. }
+  destruct Gta as [tl' [Gt' St']].
+  pose proof (slot_at_wr sa s' (fst to) (snd to) (Some r) 1 tl' Gt' Hv) as SB. rewrite St' in SB.
+  intros w j. rewrite SB. destruct ((w =? fst to)%N && (j =? snd to)%N); [reflexivity|]. apply SA.
+Qed.
+
+Lemma andb_loc w j v i : (w =? v)%N && (j =? i)%N = true <-> w = v /\ j = i.
+Proof. rewrite Bool.andb_true_iff, !N.eqb_eq. tauto. Qed.
+
+(* one successful migrateSector + swap *)
+Lemma dinv_move d v idx r to m vl tl :
+  dinv d ->
+  vget v (vols (md d)) = Some vl -> sget idx (vslots vl) = Some (Some r) ->
+  vget (fst to) (vols (md d)) = Some tl -> sget (snd to) (vslots tl) = Some None ->
+  content d v idx = r ->
+  mig_move v idx r to (md d) = Ok m ->
+  let d1 := with_cache d (cadd (csize d) r r (cache d)) in
+  dinv (with_md (sync_vol (fst to) (with_files d1 (disk d1) (kset (fst to) (snd to) r (pend d1)))) m).
+Proof.
+  intros I G S Gt St Cr M d1.
+  pose proof (mig_move_slots v idx r to (md d) m vl tl G S Gt St M) as SA.
+  destruct (mig_move_vols v idx r to (md d) m M) as [_ [Hc [Ht Hk]]].
+  pose proof (inv_mig_move v idx r to (md d) m vl tl (d_inv d I) G S Gt St M) as J1.
+  assert (Sfrom : slot_at (md d) v idx = Some (Some r)) by (unfold slot_at; now rewrite G).
+  assert (Sto : slot_at (md d) (fst to) (snd to) = Some None) by (unfold slot_at; now rewrite Gt).
+  set (d2 := sync_vol (fst to) (with_files d1 (disk d1) (kset (fst to) (snd to) r (pend d1)))).
+  assert (Cn : forall w j, content d2 w j = if (w =? fst to)%N && (j =? snd to)%N then r else content d w j).
+  { intros w j. unfold d2. rewrite content_sync_vol. unfold content; cbn.
+    destruct ((w =? fst to)%N && (j =? snd to)%N); reflexivity. }
+  assert (Dn : forall w j, dcontent d2 w j = if (w =? fst to)%N then content d2 w j else dcontent d w j).
+  { intros w j. unfold d2 at 1. rewrite dcontent_sync_vol. destruct (w =? fst to)%N; [|reflexivity].
+    unfold d2. now rewrite content_sync_vol. }
+  (* occupied slots other than the moved sector's are untouched *)
+  assert (Hold : forall w j q, slot_at (md d) w j = Some (Some q) -> q <> r ->
+             slot_at m w j = Some (Some q) /\ content d2 w j = content d w j).
+  { intros w j q H Hq. rewrite SA, Cn.
+    destruct ((w =? fst to)%N && (j =? snd to)%N) eqn:E1.
+    { apply andb_loc in E1 as [-> ->]. congruence. }
+    destruct ((w =? v)%N && (j =? idx)%N) eqn:E2; [|auto].
+    apply andb_loc in E2 as [-> ->]. congruence. }
+  assert (Hnew : forall w j q, slot_at m w j = Some (Some q) ->
+             (q = r /\ w = fst to /\ j = snd to) \/ (q <> r /\ slot_at (md d) w j = Some (Some q))).
+  { intros w j q H. rewrite SA in H.
+    destruct ((w =? fst to)%N && (j =? snd to)%N) eqn:E1.
+    { apply andb_loc in E1 as [-> ->]. injection H as <-. now left. }
+    destruct ((w =? v)%N && (j =? idx)%N) eqn:E2; [discriminate|].
+    right. split; [|exact H]. intros ->.
+    destruct (slot_injective (md d) w j v idx r (d_inv d I) H Sfrom) as [-> ->].
+    now rewrite !N.eqb_refl in E2. }
+  destruct I as [I1 I2 I3 I4 I4' I5 I6].
+  constructor; cbn [md with_md thr cache]; fold d2.
+  - exact J1.
+  - intros q w j H. rewrite Hk. apply Hnew in H as [[-> _]|[_ H]]; eapply I2; eauto.
+  - exact I3.
+  - intros t q w j H. cbn in H. destruct (I4 t q w j H) as [S' C'].
+    assert (Hq : q <> r).
+    { intros ->. destruct (slot_injective (md d) w j v idx r I1 S' Sfrom) as [-> ->]. congruence. }
+    destruct (Hold w j q S' Hq) as [S2 C2]. split; [exact S2|].
+    change (content d2 w j <> q). now rewrite C2.
+  - exact I4'.
+  - intros q c H [w [j [S' C']]]. change (content d2 w j = q) in C'. cbn in H.
+    apply cget_cadd in H as [[-> ->]|[Hq H]]; [reflexivity|].
+    apply (I5 q c H). apply Hnew in S' as [[-> _]|[_ S']]; [congruence|].
+    exists w, j. split; [exact S'|]. destruct (Hold w j q S' Hq) as [_ C2]. congruence.
+  - intros q H. unfold refd in H. cbn in H. rewrite Hc, Ht in H. fold (refd (md d) q) in H.
+    destruct (I6 q H) as [w [j [S' [C' D']]]].
+    destruct (N.eq_dec q r) as [->|Hq].
+    + exists (fst to), (snd to). split; [rewrite SA, !N.eqb_refl; reflexivity|].
+      change (content d2 (fst to) (snd to) = r /\ dcontent d2 (fst to) (snd to) = r).
+      rewrite Dn, Cn, !N.eqb_refl. cbn. auto.
+    + destruct (Hold w j q S' Hq) as [S2 C2]. exists w, j. split; [exact S2|].
+      change (content d2 w j = q /\ dcontent d2 w j = q). rewrite Dn, C2.
+      destruct (w =? fst to)%N; auto.
+Qed.
+
+Lemma dinv_migrate fuel : forall v start index calls mig fail d,
+  dinv d -> dinv (fst (dmigrate fuel v start index calls mig fail d)).
+Proof.
+  induction fuel as [|f IH]; intros v start index calls mig fail d I; cbn [dmigrate]; [exact I|].
+  destruct (next_occ index (slots_of v (md d)) None) as [[idx r]|] eqn:Nx.
+  2:{ destruct calls; exact I. }
+  destruct (mig_has_target (md d) v start); cbn [negb].
+  2:{ destruct calls; exact I. }
+  destruct calls as [|[[fidx to] code] rest]; [exact I|].
+  destruct ((fidx =? idx)%N && mig_valid_target (md d) v start to) eqn:V; cbn [negb]; [|exact I].
+  apply Bool.andb_true_iff in V as [_ V].
+  destruct (code =? 1)%N; [apply IH; exact I|].
+  apply next_occ_in in Nx as [Nx|Nx]; [discriminate|].
+  destruct (slots_of_get v (md d) idx r (d_inv d I) Nx) as [vl [G S]].
+  destruct (mig_valid_slot (md d) v start to V) as [tl [Gt St]].
+  assert (Sfrom : slot_at (md d) v idx = Some (Some r)) by (unfold slot_at; now rewrite G).
+  (* the cache entry added by readLocation is coherent *)
+  assert (I1 : dinv (with_cache d (cadd (csize d) r (content d v idx) (cache d)))).
+  { apply dinv_cache; [exact I|]. intros q x H W.
+    apply cget_cadd in H as [[-> ->]|[Hq H]]; [|apply (d_cache d I q x H W)].
+    destruct W as [w [j [S' C']]].
+    destruct (slot_injective (md d) w j v idx r (d_inv d I) S' Sfrom) as [-> ->]. exact C'. }
+  destruct (code =? 2)%N.
+  { destruct (content d v idx =? r)%N; [exact I|]. apply IH; exact I1. }
+  destruct (content d v idx =? r)%N eqn:Cr; cbn [negb]; [|exact I]. apply N.eqb_eq in Cr.
+  destruct (code =? 3)%N; [apply IH; exact I1|].
+  destruct (code =? 0)%N; cbn [negb]; [|exact I].
+  cbn [md with_cache].
+  destruct (mig_move v idx r to (md d)) as [m| |] eqn:M; try exact I1.
+  apply IH. rewrite Cr. cbn [disk pend with_cache csize cache].
+  exact (dinv_move d v idx r to m vl tl I G S Gt St Cr M).
+Qed.
+
+(** * Every allowed step preserves the invariant *)
+Theorem dinv_step d o : dinv d -> step_ok d o -> dinv (fst (dstep d o)).
+Proof.
+  intros I OK. destruct o.
+  - now apply dinv_meta.
+  - now apply dinv_reserve.
+  - now apply dinv_write.
+  - cbn. now apply dinv_sync.
+  - now apply dinv_read.
+  - cbn [dstep]. now apply dinv_migrate.
+  - now apply dinv_shrink.
+  - now apply dinv_remove.
+  - destruct OK.
+  - now apply dinv_prune.
+  - now apply dinv_resize_cache.
+  - cbn. now apply dinv_crash.
+  - now apply dinv_restart.
+Qed.
+
+Theorem dinv_runs l : forall d, dinv d -> steps_ok d l -> dinv (druns d l).
+Proof.
+  induction l as [|o t IH]; intros d I OK; [exact I|]. destruct OK as [O1 O2].
+  cbn. apply IH; [now apply dinv_step|exact O2].
 Qed.
